@@ -107,6 +107,12 @@ func c16CLI(c *vk.Ctx) {
 		os.WriteFile(fp, []byte(csv.String()), 0600)
 		var stdout, stderr bytes.Buffer
 		run := exec.Command(bin, "-f", fp, sp)
+		if i%4 == 3 {
+			// the source comes through a pipe (cat a.vis | asm /dev/stdin): a path that is not a regular file
+			run = exec.Command(bin, "-f", fp, "/dev/stdin")
+			run.Stdin = strings.NewReader(text.String())
+			c.Count("cli_runs_reading_a_pipe", 1)
+		}
 		run.Stdout, run.Stderr = &stdout, &stderr
 		rerr := run.Run()
 		c.Eval(vk.Hash64(key, text.String()), len(src.Lines) >= 2)
